@@ -23,7 +23,16 @@ BODYSETS = {
     # preferred units or other process-wide settings for the duration of a computation shows up in the first thread's result
     'bare||fire': ['bare', 'fire'],
     'bare||zero': ['bare', 'zero'],
+    # construction inside the threads (explored at LINE granularity: generated dataclass constructors are no scheduling points): drag models over the
+    # SAME standard table, a multi-BC model, ten atmospheres of which two are equal (anything parsed, memoised or interned once per process
+    # shows up when its first use is interleaved), weapon / ammunition / shot / winds / sight / calculator
+    'construct||construct': ['construct', 'construct'],
+    # one sight object shared by two threads that ask for different distances and magnifications
+    'sight||sight': ['sight', 'sight'],
+    # look-ups in two results at the same time (each thread its own result object)
+    'lookup||lookup': ['lookup', 'lookup'],
 }
+LINE_SETS = ('construct||construct',)
 
 
 def shared_world():
@@ -32,6 +41,7 @@ def shared_world():
     dm = pb.DragModel(0.223, pb.TableG7, U.Grain(168), U.Inch(0.308), U.Inch(1.2))
     return {'dm': dm, 'ammo': pb.Ammo(dm, U.FPS(2750)), 'atmo': pb.Atmo.icao(U.Foot(100)),
             # segment boundaries INSIDE the 1-2 ft bodies, so that the wind cursor advances during the interleaved region
+            'sight': pb.Sight('SFP', U.Meter(100), U.Mil(0.1), U.MOA(0.25)),
             'winds': [pb.Wind(U.MPH(5), U.Degree(90), U.Foot(0.3)), pb.Wind(U.MPH(9), U.Degree(200), U.Foot(0.8)), pb.Wind(U.MPH(3), U.Degree(10), U.Foot(1.3))]}
 
 
@@ -49,6 +59,36 @@ def body(kind, k, sw):
         c = pb.Calculator(_config={'max_calc_step_size_feet': (0.5 if k != 1 else 0.4) if kind != 'steep' else 20.0})
         if kind == 'steep':
             return ['ok', traj_bits(c.fire(shot, U.Foot(14.0), U.Foot(7.0)).trajectory)]
+        if kind == 'construct':
+            obs = []
+            for tab, bc in ((pb.TableG7, 0.3), (pb.TableG1, 0.4)):
+                m = pb.DragModel(bc, tab, U.Grain(150 + k), U.Inch(0.308), U.Inch(1.2))
+                obs.append([bits(m.BC), len(m.drag_table), bits(m.drag_table[-1].Mach), bits(sum(p.CD for p in m.drag_table))])
+            mb = pb.DragModelMultiBC([pb.BCPoint(0.25, Mach=2.0), pb.BCPoint(0.2, V=U.FPS(1200))], pb.TableG7, U.Grain(168), U.Inch(0.308))
+            obs.append([bits(mb.BC), len(mb.drag_table), bits(sum(p.CD for p in mb.drag_table))])
+            for i in (0, 0, 1, 2, 3, 4, 5, 6, 7, 8):      # two equal ones first, then eight more distinct ones
+                a_ = pb.Atmo(U.Foot(100 * i), U.InHg(29.92 - 0.1 * i), U.Fahrenheit(59 - i), 0.1 * (i % 3))
+                obs.append([bits(a_.density_ratio), bits(a_.mach.raw_value)])
+            s_ = pb.Shot(pb.Weapon(U.Inch(2), U.Inch(10), U.MOA(3), pb.Sight('SFP', U.Meter(100), U.Mil(0.1), U.Mil(0.1))), pb.Ammo(m, U.FPS(2700), U.Celsius(15), 0.01, True),
+                         U.Degree(3), U.MOA(2), U.Degree(1), a_, [pb.Wind(U.MPH(4), U.Degree(80), U.Yard(50)), pb.Wind(U.MPH(2), U.Degree(10))])
+            obs.append([bits(s_.barrel_elevation.raw_value), bits(s_.barrel_azimuth.raw_value), [bits(w_.until_distance.raw_value) for w_ in s_.winds]])
+            c_ = pb.Calculator(_config={'cMaxIterations': 5 + k})
+            obs.append(H.digest(H.fp(c_._config)))
+            return ['ok', obs]
+        if kind == 'sight':
+            res = []
+            for j in range(3):
+                a_ = sw['sight'].get_adjustment(U.Meter(100 + 150 * k + 40 * j), U.Mil(1.3 + k), U.Mil(-0.4 * (k + 1)), 3 + 4 * k + j)
+                res.append([bits(a_.vertical), bits(a_.horizontal)])
+            return ['ok', res]
+        if kind == 'lookup':
+            from py_ballisticcalc import helpers as HP
+            hr = c.fire(shot, U.Foot(3.0), U.Foot(0.5), True)
+            res = []
+            for q in (0.6 + 0.9 * k, 2.2 - 0.7 * k):
+                res.append([HP.find_index_of_point_for_distance(hr, q, U.Foot), bits(HP.find_time_for_distance_in_shot(hr, q, U.Foot)),
+                            HP.find_index_for_time_point(hr, q / 3000.0), hr.index_at_distance(U.Foot(q)), bits(hr.get_at_distance(U.Foot(q)).time)])
+            return ['ok', res]
         if kind == 'bare':
             # default preferences: sight height in, twist in, velocity fps, angles deg, distances yd, temperature F, pressure inHg
             res = []
@@ -256,6 +296,8 @@ def explore(ctx):
             orders = orders[:2]
         if quick and bs in ('zero||zero', 'firex||fire', 'bare||zero'):
             continue
+        if bs in LINE_SETS:
+            continue
         for order in orders:
             bodies, sw = make_bodies(bs)
             base = sched.Run(bodies, {}, order, 'call')
@@ -269,6 +311,20 @@ def explore(ctx):
             for i in idxs:
                 plans.append([bs, list(order), i, bound_here, 'call'])
     ctx.run_part('level', plans)
+    if ctx.viol:
+        ctx.cap('further schedule exploration skipped: violating schedules already found')
+        return
+    # bodies that construct objects: line granularity, one pre-emption, every line point as first pre-emption
+    lp0 = []
+    for bs in LINE_SETS:
+        for order in (((0, 1),) if quick else ((0, 1), (1, 0))):       # the two threads run the same body: quick explores one hand-over order
+            bodies, sw = make_bodies(bs)
+            base = sched.Run(bodies, {}, order, 'line')
+            base.run()
+            for i in range(len(base.points)):
+                lp0.append([bs, list(order), i, 1, 'line'])
+    ctx.run_part('level', lp0)
+    ctx.extra['construct_line_schedules'] = len(lp0)
     if ctx.viol:
         ctx.cap('further schedule exploration skipped: violating schedules already found')
         return
